@@ -459,6 +459,25 @@ func ServiceCases() []*Case {
 			}
 		}
 	}
+	// request properties whose name is a prefix of a path parameter's name
+	for _, verb := range []string{"GET", "PUT"} {
+		f := file("t/v1", "a")
+		f.Add(&Service{Name: "Thing", BasePath: "/t/v1", Methods: []*Method{{Name: "DoThing", Verb: verb, Path: "/things/:thingId/:partNameLong",
+			Request: []*Field{fld("thing", T(TString)), fld("thingId", T(TString)), fld("partName", T(TString)), fld("partNameLong", T(TString)), fld("part", T(TInt32))}, HasResponse: true}}})
+		out = append(out, &Case{ID: "service:prefix-named-properties:" + verb, Family: "services", Coord: "services|prefix-named-properties", P: &Program{Files: []*File{f}}})
+	}
+	// requests made of path parameters only, and empty requests, for every verb
+	for _, verb := range []string{"GET", "POST", "PUT", "DELETE", "PATCH"} {
+		for _, shape := range []string{"only-path-params", "no-fields"} {
+			f := file("t/v1", "a")
+			m := &Method{Name: "DoThing", Verb: verb, Path: "/things/:thingId/:partName", Request: []*Field{fld("thingId", T(TString)), fld("partName", T(TString))}, HasResponse: true}
+			if shape == "no-fields" {
+				m.Path, m.Request = "/things", nil
+			}
+			f.Add(&Service{Name: "Thing", BasePath: "/t/v1", Methods: []*Method{m}})
+			out = append(out, &Case{ID: fmt.Sprintf("service:%s:%s", verb, shape), Family: "services", Coord: "services|verb=" + verb + "|request=" + shape, P: &Program{Files: []*File{f}}})
+		}
+	}
 	// source files whose names contain dots, two of them with the same first segment, each with a service / topic
 	for _, names := range [][2]string{{"orders.query", "orders.command"}, {"a.b.c", "a.b"}, {"x", "x.extra"}} {
 		for _, what := range []string{"services", "topics", "service-and-topic"} {
@@ -1069,6 +1088,36 @@ func PipelineCases() []*Case {
 			Request:  []*Field{{Name: "page", T: &Type{K: TObject, Ref: &Ref{Qualifier: "j5.list.v1", To: &Decl{Kind: DObject, Name: "PageRequest", File: &File{Dir: "j5/list/v1", Name: "page"}}}}}, {Name: "query", T: &Type{K: TObject, Ref: &Ref{Qualifier: "j5.list.v1", To: &Decl{Kind: DObject, Name: "QueryRequest", File: &File{Dir: "j5/list/v1", Name: "query"}}}}}},
 			Response: []*Field{fld("trees", ArrayOf(RefTo(node, ""))), {Name: "page", T: &Type{K: TObject, Ref: &Ref{Qualifier: "j5.list.v1", To: &Decl{Kind: DObject, Name: "PageResponse", File: &File{Dir: "j5/list/v1", Name: "page"}}}}}}}}})
 		add("recursive-list-items", f)
+	}
+	for _, shape := range []string{"oneof-self", "oneof-mutual", "oneof-via-array"} { // cycles that never pass through an object
+		f := file("t/v1", "a")
+		f.Imports = []Import{{Pkg: "j5.list.v1"}}
+		filter := oneofD("Filter", fld("leaf", InlineOf(obj("", fld("x", T(TString))))))
+		switch shape {
+		case "oneof-self":
+			filter.Fields = append(filter.Fields, fld("not", RefTo(filter, "")))
+			f.Add(filter)
+		case "oneof-mutual":
+			other := oneofD("Other", fld("back", RefTo(filter, "")))
+			filter.Fields = append(filter.Fields, fld("other", RefTo(other, "")))
+			f.Add(filter)
+			f.Add(other)
+		case "oneof-via-array":
+			wrap := oneofD("Wrap", fld("deeper", RefTo(filter, "")))
+			filter.Fields = append(filter.Fields, fld("any", RefTo(wrap, "")))
+			f.Add(filter)
+			f.Add(wrap)
+		}
+		item := obj("Item", fld("itemId", T(TKeyID62)), fld("filter", RefTo(filter, "")))
+		f.Add(item)
+		mkRef := func(n, file string) *Type {
+			return &Type{K: TObject, Ref: &Ref{Qualifier: "j5.list.v1", To: &Decl{Kind: DObject, Name: n, File: &File{Dir: "j5/list/v1", Name: file}}}}
+		}
+		f.Add(&Service{Name: "Item", BasePath: "/t/v1", Methods: []*Method{{Name: "ListItems", Verb: "GET", Path: "/items", HasResponse: true,
+			Request:  []*Field{{Name: "page", T: mkRef("PageRequest", "page")}, {Name: "query", T: mkRef("QueryRequest", "query")}},
+			Response: []*Field{fld("items", ArrayOf(RefTo(item, ""))), {Name: "page", T: mkRef("PageResponse", "page")}}},
+			{Name: "PutFilter", Verb: "POST", Path: "/filter", Request: []*Field{fld("filter", RefTo(filter, ""))}, HasResponse: true, Response: []*Field{fld("filter", RefTo(filter, ""))}}}})
+		add("recursive-"+shape+"-list-items", f)
 	}
 	{
 		f := file("t/v1", "a")
